@@ -59,6 +59,7 @@ class StubDriver:
         self.stats = stats if stats is not None else {}
         self.trace = []          # (x, f) in evaluation order
         self.success = True      # the contract promises neither value
+        self.after_eval = None   # harness hook (e.g. watch the lens size)
 
     def _run(self, fun, x0, lo, hi):
         if x0 is None:
@@ -77,6 +78,8 @@ class StubDriver:
             x = np.minimum(np.maximum(x, lo), hi)
             f = float(fun(x.copy()))
             xs.append((x.copy(), f))
+            if self.after_eval is not None:
+                self.after_eval()
             return f
         ev(x0)
         for kind, arg in self.plan:
@@ -198,12 +201,15 @@ class RealDriver:
         self.seed = seed
         self.stats = stats if stats is not None else {}
         self.trace = []
+        self.after_eval = None
 
     def _spy(self, fun):
         def spied(x, *a, **kw):
             f = fun(x, *a, **kw)
             self.trace.append((np.array(x, dtype=float).copy(),
                                float(np.ravel(f)[0])))
+            if self.after_eval is not None:
+                self.after_eval()
             return f
         return spied
 
